@@ -9,6 +9,7 @@ package main
 //   * the (gas, cost) sequence of the outermost frame (used to choose out-of-gas cut points).
 
 import (
+	"bytes"
 	"fmt"
 	"math/big"
 	"sort"
@@ -208,6 +209,11 @@ type tracer struct {
 	knownA  map[common.Address]struct{} // accounts that may have been touched (initial world, every call/create/selfdestruct target)
 	addrs   []common.Address
 	pre     map[string][]byte // byte strings the run hashes
+	pendP   map[int]*pendPrecompile      // a call to the identity / modexp precompile just issued at this depth
+	watchP  map[int]*pendPrecompile      // its expected return data, watched until the next call at this depth
+	deployed map[common.Address][]byte   // code returned by the init code of every successful creation
+	depOwner map[common.Address]int      // index of the frame that performed the creation (its failure undoes it)
+	enterTo []common.Address             // targets of the open frames (parallel to frames)
 	frames  []*frameSnap
 	steps   [][2]uint64
 	fails   []string
@@ -216,6 +222,10 @@ type tracer struct {
 	aluSeen int
 	pend    map[int]*pendAlu
 	pendJ   map[int]*pendJump
+}
+type pendPrecompile struct {
+	what string
+	want []byte
 }
 type pendJump struct {
 	dest  *big.Int
@@ -380,16 +390,42 @@ func (t *tracer) CaptureEnd(output []byte, gasUsed uint64, err error) { t.exit(e
 func (t *tracer) CaptureEnter(typ vm.OpCode, from, to common.Address, input []byte, gas uint64, value *big.Int) {
 	t.addAddr(from)
 	t.addAddr(to)
+	t.enterTo = append(t.enterTo, to)
+	if typ == vm.SELFDESTRUCT {
+		delete(t.deployed, from) // the account is deleted
+	}
 	if typ == vm.SELFDESTRUCT { // a pseudo frame (enter/exit around the beneficiary transfer): no snapshot semantics
 		t.frames = append(t.frames, &frameSnap{typ: typ, vals: map[string]common.Hash{}, accts: map[common.Address]string{}, refund: ^uint64(0)})
 		return
 	}
 	t.frames = append(t.frames, t.snap(typ))
+	delete(t.pendP, len(t.frames)) // a new frame at this depth starts with empty return data
+	delete(t.watchP, len(t.frames))
 	if len(t.frames) > t.maxDep {
 		t.maxDep = len(t.frames)
 	}
 }
-func (t *tracer) CaptureExit(output []byte, gasUsed uint64, err error) { t.exit(err) }
+func (t *tracer) CaptureExit(output []byte, gasUsed uint64, err error) {
+	if n := len(t.enterTo); n > 0 {
+		to := t.enterTo[n-1]
+		t.enterTo = t.enterTo[:n-1]
+		if len(t.frames) > 0 {
+			if typ := t.frames[len(t.frames)-1].typ; (typ == vm.CREATE || typ == vm.CREATE2) && err == nil {
+				t.deployed[to] = append([]byte{}, output...) // what the init code returned is what must stay deployed
+				t.depOwner[to] = len(t.frames) - 1
+			}
+		}
+	}
+	if err != nil { // a failing frame undoes the creations made inside it
+		for a, owner := range t.depOwner {
+			if owner >= len(t.frames) {
+				delete(t.deployed, a)
+				delete(t.depOwner, a)
+			}
+		}
+	}
+	t.exit(err)
+}
 func (t *tracer) CaptureFault(pc uint64, op vm.OpCode, gas, cost uint64, memory *vm.Memory, stack *vm.Stack, contract *vm.Contract, depth int, err error) {
 	if p := t.pendJ[depth]; p != nil {
 		delete(t.pendJ, depth)
@@ -408,6 +444,17 @@ func (t *tracer) CaptureState(pc uint64, op vm.OpCode, gas, cost uint64, memory 
 		} else if got := data[len(data)-1].ToBig(); got.Cmp(p.want) != 0 {
 			t.fails = append(t.fails, fmt.Sprintf("alu: %s(%x, %x, %x) = %x on the EVM, %x by its mathematical definition", p.op, p.a, p.b, p.c, got, p.want))
 		}
+	}
+	if p := t.pendP[depth]; p != nil { // the step after a call to identity / modexp: success flag on top of the stack
+		delete(t.pendP, depth)
+		if len(data) > 0 && data[len(data)-1].IsUint64() && data[len(data)-1].Uint64() == 1 {
+			t.watchP[depth] = p
+			t.ops["checked-precompile-"+p.what]++
+		}
+	}
+	if p := t.watchP[depth]; p != nil && !bytes.Equal(rData, p.want) {
+		delete(t.watchP, depth)
+		t.fails = append(t.fails, fmt.Sprintf("precompile-%s: return data is %x, the %s of the call's input (as it was at call time) is %x", p.what, rData, p.what, p.want))
 	}
 	if p := t.pendJ[depth]; p != nil {
 		delete(t.pendJ, depth)
@@ -447,6 +494,25 @@ func (t *tracer) CaptureState(pc uint64, op vm.OpCode, gas, cost uint64, memory 
 			}
 			t.aluSeen++
 			t.pend[depth] = &pendAlu{op: name, want: mathALU(name, v[0], v[1], v[2]), a: v[0], b: v[1], c: v[2], n: len(data) - ar + 1}
+		}
+	}
+	if op == vm.CALL || op == vm.CALLCODE || op == vm.DELEGATECALL || op == vm.STATICCALL || op == vm.CREATE || op == vm.CREATE2 {
+		delete(t.watchP, depth) // the return data buffer is about to be replaced
+		hv := 0
+		if op == vm.CALL || op == vm.CALLCODE {
+			hv = 1
+		}
+		if op != vm.CREATE && op != vm.CREATE2 && len(data) >= 6+hv {
+			tb := data[len(data)-2].Bytes20()
+			target := new(big.Int).SetBytes(tb[:])
+			if target.IsUint64() && (target.Uint64() == 4 || target.Uint64() == 5) {
+				in := memSlice(memory, data[len(data)-3-hv].Uint64(), data[len(data)-4-hv].Uint64())
+				if target.Uint64() == 4 {
+					t.pendP[depth] = &pendPrecompile{what: "identity", want: in}
+				} else if want, ok := refModexp(in); ok {
+					t.pendP[depth] = &pendPrecompile{what: "modexp", want: want}
+				}
+			}
 		}
 	}
 	switch {
@@ -501,7 +567,8 @@ func runImpl(c *Case, gas uint64, collectSteps bool) (o Obs) {
 	o.Storage = map[string]string{}
 	st := state.New(sharedDB, trie.Root{})
 	tr := &tracer{known: map[string]struct{}{}, ops: map[string]int{}, pend: map[int]*pendAlu{}, pendJ: map[int]*pendJump{},
-		knownA: map[common.Address]struct{}{}, pre: map[string][]byte{}}
+		knownA: map[common.Address]struct{}{}, pre: map[string][]byte{},
+		pendP: map[int]*pendPrecompile{}, watchP: map[int]*pendPrecompile{}, deployed: map[common.Address][]byte{}, depOwner: map[common.Address]int{}}
 	tr.addPre(nil)
 	for _, ct := range c.Contracts {
 		if ct.Code != "" {
@@ -594,6 +661,18 @@ func runImpl(c *Case, gas uint64, collectSteps bool) (o Obs) {
 	}
 	// the property's own clauses, on the implementation's observations alone
 	o.PropFail = tr.fails
+	if o.Class == "ok" {
+		for a, want := range tr.deployed {
+			code, err := st.GetCode(thor.Address(a))
+			if err != nil {
+				hx.Fatal("GetCode: %v", err)
+			}
+			if !bytes.Equal(code, want) {
+				o.PropFail = append(o.PropFail, fmt.Sprintf("create: the code at %x is %x, its init code returned %x", a, code, want))
+				break
+			}
+		}
+	}
 	if o.Class != "ok" {
 		for _, s := range c.Storage {
 			id := hx.HexN(addrOf(s.Addr).Bytes()) + " " + hx.HexN(b32Of(s.Key).Bytes())
